@@ -147,6 +147,24 @@ def run_case(case):
                         info["ops"] += 1
                         if got != [str(probe)]:
                             bad("listed-under-another-name", op, f"listing of {n!r} returned {got!r}, expected [{str(probe)!r}]")
+                    if str(cur) != "/" and not case.get("no_mlsx", False):
+                        # the same listing once more, through the client's own building blocks, with
+                        # the data connection made only after a change of the working directory: the
+                        # name was said in `cur`, it means the directory in `cur`
+                        op = "list-of-named-dir:MLSD:late-data-connection"
+                        _c, lines = await client.command("EPSV", "229")
+                        _ip, port = client.parse_epsv_response(lines[-1])
+                        await client.command("MLSD " + n, "1xx")
+                        await client.change_directory("/")
+                        r, w = await asyncio.open_connection("127.0.0.1", port)
+                        data = await r.read()
+                        w.close()
+                        await client.command(None, "2xx")
+                        await client.change_directory(cur)
+                        got = sorted(str(client.parse_mlsx_line(ln)[0]) for ln in data.split(b"\r\n") if ln)
+                        info["ops"] += 1
+                        if got != ["probe.bin"]:
+                            bad("listed-under-another-name", op, f"CWD {str(cur)!r}, MLSD {n!r} (150), CWD /, then the data connection: listed {got!r}, expected ['probe.bin']")
                     op = "remove_file-in-named-dir"
                     await client.remove_file(probe)
                     info["ops"] += 1
